@@ -136,7 +136,7 @@ impl Aml for Path {
             }
             n => {
                 sink.byte(MULTINAMEPREFIX);
-                sink.byte(n as u8);
+                sink.byte(u8::try_from(n).unwrap());
             }
         };
 
@@ -264,7 +264,7 @@ pub struct Package<'a> {
 
 impl Aml for Package<'_> {
     fn to_aml_bytes(&self, sink: &mut dyn AmlSink) {
-        let mut bytes = vec![self.children.len() as u8];
+        let mut bytes = vec![u8::try_from(self.children.len()).unwrap()];
         for child in &self.children {
             child.to_aml_bytes(&mut bytes);
         }
@@ -296,7 +296,7 @@ impl Aml for PackageBuilder {
 
         sink.byte(PACKAGEOP);
         sink.vec(&pkg_length);
-        sink.byte(self.elements as u8);
+        sink.byte(u8::try_from(self.elements).unwrap());
         sink.vec(&self.data);
     }
 }
@@ -401,6 +401,7 @@ fn create_pkg_length(len: usize, include_self: bool) -> Vec<u8> {
             result.push((length >> 12) as u8);
         }
         _ => {
+            assert!(length < 2usize.pow(28));
             result.push((3u8 << 6) | (length & 0xf) as u8);
             result.push((length >> 4) as u8);
             result.push((length >> 12) as u8);
@@ -647,7 +648,8 @@ impl Aml for AddressSpace<u16> {
         sink.word(self.min); /* Min */
         sink.word(self.max); /* Max */
         sink.word(self.translation.unwrap_or(0));
-        let len = self.max - self.min + 1;
+        assert!(self.min <= self.max);
+        let len = (self.max - self.min).checked_add(1).unwrap();
         sink.word(len); /* Length */
     }
 }
@@ -664,7 +666,8 @@ impl Aml for AddressSpace<u32> {
         sink.dword(self.min); /* Min */
         sink.dword(self.max); /* Max */
         sink.dword(self.translation.unwrap_or(0)); /* Translation */
-        let len = self.max - self.min + 1;
+        assert!(self.min <= self.max);
+        let len = (self.max - self.min).checked_add(1).unwrap();
         sink.dword(len); /* Length */
     }
 }
@@ -681,7 +684,8 @@ impl Aml for AddressSpace<u64> {
         sink.qword(self.min); /* Min */
         sink.qword(self.max); /* Max */
         sink.qword(self.translation.unwrap_or(0)); /* Translation */
-        let len = self.max - self.min + 1;
+        assert!(self.min <= self.max);
+        let len = (self.max - self.min).checked_add(1).unwrap();
         sink.qword(len); /* Length */
     }
 }
@@ -880,6 +884,7 @@ impl Aml for Method<'_> {
     fn to_aml_bytes(&self, sink: &mut dyn AmlSink) {
         let mut bytes = Vec::new();
         self.path.to_aml_bytes(&mut bytes);
+        assert!(self.args <= 7);
         let flags: u8 = (self.args & 0x7) | ((self.serialized as u8) << 3);
         bytes.push(flags);
         for child in &self.children {
